@@ -122,6 +122,27 @@ Section Plumbing.
         let sb := run_qstep ns s q in
         if snd sb then run_query ns t (fst sb) else fst sb
     end.
+
+  (* A program may assign STARTTIME / ENDTIME itself (`ENDTIME = "...";` is an ordinary
+     assignment to a namespace entry): the statements that follow run under the new
+     namespace.  Such a query is a list of segments, each with the namespace in force;
+     it stops at the first step that raises, whichever segment that is in.
+     [run_query_b] is [run_query] that also tells whether the end was reached. *)
+  Fixpoint run_query_b (ns : namespace) (prog : list qstep) (s : state) : state * bool :=
+    match prog with
+    | [] => (s, true)
+    | q :: t =>
+        let sb := run_qstep ns s q in
+        if snd sb then run_query_b ns t (fst sb) else (fst sb, false)
+    end.
+
+  Fixpoint run_windows (segs : list (namespace * list qstep)) (s : state) : state :=
+    match segs with
+    | [] => s
+    | seg :: t =>
+        let sb := run_query_b (fst seg) (snd seg) s in
+        if snd sb then run_windows t (fst sb) else fst sb
+    end.
 End Plumbing.
 
 (* A concrete built-in, for the extracted driver and the non-vacuity example: it
